@@ -4,6 +4,7 @@ import (
 	"fmt"
 	"go/ast"
 	"go/token"
+	"golang.org/x/tools/go/cfg"
 	"strings"
 )
 
@@ -347,44 +348,48 @@ func checkDeferredSuccessBroadcast(r *Reporter, p *Prog, pkg, typ, method, cond 
 func checkStarvingBookkeeping(r *Reporter, p *Prog) {
 	const pkg = "runtime/syncutils"
 	info := p.Pkg(pkg).TypesInfo
-	// canWrite
-	if fd := p.FuncDecl(pkg, "StarvingMutex", "canWrite"); fd == nil {
-		r.Unresolved("excl/bookkeeping", pkg+".StarvingMutex.canWrite", "method not found")
-	} else {
-		src := ""
-		ast.Inspect(fd.Body, func(n ast.Node) bool {
-			if rs, ok := n.(*ast.ReturnStmt); ok && len(rs.Results) == 1 {
-				src = exprKey(rs.Results[0])
-			}
-			return true
-		})
-		want1, want2 := "(!f.writerActive&&(f.readersActive==0))", "((f.readersActive==0)&&!f.writerActive)"
-		recv := fd.Recv.List[0].Names[0].Name
-		src = strings.ReplaceAll(src, recv+".", "f.")
-		if src == want1 || src == want2 {
-			r.Pass("excl/bookkeeping", pkg+".StarvingMutex.canWrite", p.posStr(fd.Pos()), "canWrite = !writerActive && readersActive == 0")
-		} else {
-			r.Fail("excl/bookkeeping", pkg+".StarvingMutex.canWrite", p.posStr(fd.Pos()), "a writer may only enter when no writer and no reader is active; found "+src)
-		}
-	}
+	// admission: the grant statement is reachable only through edges on which the admission
+	// condition is known - whatever helper or spelling the wait loop uses (an unexported
+	// single-expression helper such as canWrite() is expanded by the canonical keys)
 	type row struct {
 		method string
 		grant  func(ast.Node) bool
 		name   string
-		loopOn func(cond ast.Expr) bool
+		needs  []struct {
+			what string
+			pick func(f *FuncCFG) []Edge
+		}
+	}
+	factEdges := func(f *FuncCFG, suffix string, pol bool) []Edge {
+		var out []Edge
+		f.forEachEdgeFact(func(e Edge, b *cfg.Block, ft fact) {
+			if ft.Pol == pol && strings.HasSuffix(exprKey(ft.Atom), suffix) {
+				if _, isBin := ast.Unparen(ft.Atom).(*ast.BinaryExpr); !isBin {
+					out = append(out, e)
+				}
+			}
+		})
+		return out
+	}
+	noWriter := func(f *FuncCFG) []Edge { return factEdges(f, ".writerActive", false) }
+	noReaders := func(f *FuncCFG) []Edge {
+		return f.RelEdges(func(rel Rel) bool {
+			return rel.Op == "==" && (strings.HasSuffix(rel.L, ".readersActive") && rel.R == "0" || strings.HasSuffix(rel.R, ".readersActive") && rel.L == "0")
+		})
+	}
+	type need = struct {
+		what string
+		pick func(f *FuncCFG) []Edge
 	}
 	rows := []row{
 		{"Lock", func(n ast.Node) bool {
 			as, ok := n.(*ast.AssignStmt)
 			return ok && len(as.Lhs) == 1 && fieldSel(info, as.Lhs[0], "writerActive") && exprKey(as.Rhs[0]) == "true"
-		}, "writerActive = true", func(c ast.Expr) bool {
-			u, ok := ast.Unparen(c).(*ast.UnaryExpr)
-			return ok && u.Op == token.NOT && strings.HasSuffix(exprKey(u.X), ".canWrite()")
-		}},
+		}, "writerActive = true", []need{{"no writer is active", noWriter}, {"no reader is active", noReaders}}},
 		{"RLock", func(n ast.Node) bool {
 			s, ok := n.(*ast.IncDecStmt)
 			return ok && s.Tok == token.INC && fieldSel(info, s.X, "readersActive")
-		}, "readersActive++", func(c ast.Expr) bool { return fieldSel(info, c, "writerActive") }},
+		}, "readersActive++", []need{{"no writer is active", noWriter}}},
 	}
 	for _, rw := range rows {
 		key := pkg + ".StarvingMutex." + rw.method + " " + rw.name
@@ -398,17 +403,16 @@ func checkStarvingBookkeeping(r *Reporter, p *Prog) {
 			r.Fail("excl/bookkeeping", key, f.P.posStr(f.Body.Pos()), fmt.Sprintf("expected exactly one grant statement, found %d", len(grants)))
 			continue
 		}
-		// the grant is reachable only through the exit (false) edge of the wait loop's condition
-		var exitEdges []Edge
-		for _, b := range f.G.Blocks {
-			if c := condOf(b); c != nil && b.Live && rw.loopOn(c) {
-				exitEdges = append(exitEdges, Edge{b, 1})
+		ok := true
+		for _, nd := range rw.needs {
+			if w, only := f.OnlyThroughEdges(grants[0], nd.pick(f)); !only {
+				ok = false
+				r.Fail("excl/bookkeeping", key, f.PosOf(grants[0]), "the lock is granted on a path that has not observed that "+nd.what+" (the wait loop's admission condition)", w...)
+				break
 			}
 		}
-		if w, only := f.OnlyThroughEdges(grants[0], exitEdges); only {
-			r.Pass("excl/bookkeeping", key, f.PosOf(grants[0]), "granted only after the wait loop observed the admission condition")
-		} else {
-			r.Fail("excl/bookkeeping", key, f.PosOf(grants[0]), "the lock is granted on a path that did not leave the wait loop through its admission condition", w...)
+		if ok {
+			r.Pass("excl/bookkeeping", key, f.PosOf(grants[0]), "granted only on edges where the admission condition was observed")
 		}
 	}
 	// pendingWriters ++ before the wait loop, -- after, both on every path
